@@ -8,11 +8,15 @@ Proofs: GristProofs/SchemaMeta*.lean.
 
 Delivered here: the decision procedure is correct; `SchemaConsistent` only depends on what `Same`
 preserves (so a rollback, C04, restores it); record actions that do not touch the schema-bearing
-metadata fields preserve it.  The paired steps (AddColumn + AddRecord, ...) are NOT proved here.
+metadata fields preserve it; the paired steps for AddColumn, RenameColumn, RemoveColumn (schema doc
+action + column-record action, in the engine's order) preserve `SchemaConsistent ∧ MetaUnique ∧ WF ∧
+Normal`.  NOT proved: the pairs for ModifyColumn, AddTable, RemoveTable, RenameTable.
 -/
 import GristProps.C04
 import GristProofs.SchemaMetaNeutral
 import GristProofs.SchemaMetaDecide
+import GristProofs.SchemaMetaPairs6
+import GristProofs.DocRedo
 namespace Grist.Doc
 
 /-- the Bool check evaluated by the driver decides the property -/
@@ -64,6 +68,78 @@ theorem rollback_schema_consistent {st st' : EState} {steps : List (DocAction ×
       metaSchema st''.doc = metaSchema st.doc := by
   obtain ⟨st'', h1, h2, _⟩ := C04.rollback_restores hwf hn hlen hargs hex h
   exact ⟨st'', h1, schemaConsistent_of_same h2.symm hc, metaSchema_same_invariant h2⟩
+
+/-! ### paired steps of the user-action layer
+
+`MetaUnique d` (GristProofs/SchemaMetaPairs.lean): both metadata tables exist, one table record per
+`tableId`, one column record per `(parentId, colId)` -- `SchemaConsistent` alone allows duplicate
+records (the last wins), and then updating one of them breaks consistency.
+`TableRec d tr0 T`: `tr0` is a row of `_grist_Tables` with `tableId = T`.
+`ColRec d r tr0 c`: `r` is a row of `_grist_Tables_column` with `parentId = tr0`, `colId = c`.
+`NoReverseRefTo d r`: no column record has `reverseCol = r` (the engine handles two-way references
+with extra ModifyColumn actions that are outside the pair). -/
+
+/-- the `parentId` column of `_grist_Tables_column` stores ints as given (it is a Ref column; a Bool
+    or Numeric column would turn `int 1` into `true` / `1.0`) -/
+def ParentIdIntTyped (d : Doc) : Prop :=
+  ∀ mc col, findTable? d "_grist_Tables_column" = some mc → mc.findCol? "parentId" = some col →
+    ∀ k, colSet col.info.type (.int k) = .int k
+
+theorem runActs_WF_Normal {as : List DocAction} {d d' : Doc} {u : List DocAction} (hwf : WF d)
+    (hn : Normal d) (hargs : ∀ a ∈ as, a.rowsPositive ∧ a.colsDistinct)
+    (h : runActs d as = .ok (d', u)) : WF d' ∧ Normal d' :=
+  applyAll_WF hwf hn hargs (runActs_applyAll h)
+
+/-- doAddColumn: `AddColumn T c info`, then AddRecord of the column record (row id `r`; its
+    schema-bearing fields are `colRecVals tr0 c info`: parentId, colId, type, isFormula, formula). -/
+theorem pair_addColumn {d d' : Doc} {u : List DocAction} {T c : String} {info : ColInfo}
+    {tr0 r : Nat}
+    (hwf : WF d) (hn : Normal d) (hc : SchemaConsistent d) (hu : MetaUnique d)
+    (hT : isMetaId T = false) (htr : TableRec d tr0 T) (hrev : info.reverseColId = none)
+    (hr0 : 0 < r) (hnr : NoReverseRefTo d r) (hint : ParentIdIntTyped d)
+    (h : runActs d [.addColumn T c info,
+      .bulkAdd "_grist_Tables_column" [r] (colRecVals tr0 c info)] = .ok (d', u)) :
+    SchemaConsistent d' ∧ MetaUnique d' ∧ WF d' ∧ Normal d' := by
+  have h1 := pair_addColumn_core hwf hc hu hT htr hrev hr0 hnr hint h
+  have h2 := runActs_WF_Normal hwf hn (by
+    intro a ha
+    simp only [List.mem_cons, List.not_mem_nil, or_false] at ha
+    rcases ha with rfl | rfl
+    · exact ⟨trivial, trivial⟩
+    · refine ⟨?_, trivial⟩
+      intro x hx
+      simp only [List.mem_singleton] at hx
+      subst hx; exact hr0) h
+  exact ⟨h1.1, h1.2, h2.1, h2.2⟩
+
+/-- _updateColumnRecords on a colId change: `RenameColumn T old new`, then UpdateRecord of `colId` -/
+theorem pair_renameColumn {d d' : Doc} {u : List DocAction} {T old new : String} {tr0 r : Nat}
+    (hwf : WF d) (hn : Normal d) (hc : SchemaConsistent d) (hu : MetaUnique d)
+    (hT : isMetaId T = false) (htr : TableRec d tr0 T) (hrec : ColRec d r tr0 old)
+    (hnr : NoReverseRefTo d r)
+    (h : runActs d [.renameColumn T old new,
+      .bulkUpdate "_grist_Tables_column" [r] [("colId", [.str new])]] = .ok (d', u)) :
+    SchemaConsistent d' ∧ MetaUnique d' ∧ WF d' ∧ Normal d' := by
+  have h1 := pair_renameColumn_core hwf hc hu hT htr hrec hnr h
+  have h2 := runActs_WF_Normal hwf hn (by
+    intro a ha
+    simp only [List.mem_cons, List.not_mem_nil, or_false] at ha
+    rcases ha with rfl | rfl <;> exact ⟨trivial, trivial⟩) h
+  exact ⟨h1.1, h1.2, h2.1, h2.2⟩
+
+/-- doRemoveColumns: RemoveRecord of the column record first, then `RemoveColumn T c` -/
+theorem pair_removeColumn {d d' : Doc} {u : List DocAction} {T c : String} {tr0 r : Nat}
+    (hwf : WF d) (hn : Normal d) (hc : SchemaConsistent d) (hu : MetaUnique d)
+    (hT : isMetaId T = false) (htr : TableRec d tr0 T) (hrec : ColRec d r tr0 c)
+    (hnr : NoReverseRefTo d r)
+    (h : runActs d [.bulkRemove "_grist_Tables_column" [r], .removeColumn T c] = .ok (d', u)) :
+    SchemaConsistent d' ∧ MetaUnique d' ∧ WF d' ∧ Normal d' := by
+  have h1 := pair_removeColumn_core hc hu hT htr hrec hnr h
+  have h2 := runActs_WF_Normal hwf hn (by
+    intro a ha
+    simp only [List.mem_cons, List.not_mem_nil, or_false] at ha
+    rcases ha with rfl | rfl <;> exact ⟨trivial, trivial⟩) h
+  exact ⟨h1.1, h1.2, h2.1, h2.2⟩
 
 /-! ### a concrete document with metadata: user table `T` with columns `A`, `B` -/
 
@@ -146,6 +222,31 @@ example : ∃ d' u, runActs exMetaDoc exNeutralActs = .ok (d', u) ∧ SchemaCons
       simp only [List.mem_singleton] at hcv
       subst hcv
       decide
+
+theorem exMetaDoc_MetaUnique : MetaUnique exMetaDoc := by
+  refine ⟨_, _, rfl, rfl, ?_, ?_⟩
+  · unfold TUniq; decide
+  · unfold CUniq; decide
+
+theorem exMetaDoc_noRef (r : Nat) (hr : r ≠ 0) : NoReverseRefTo exMetaDoc r := by
+  intro mc hmc
+  have e : findTable? exMetaDoc "_grist_Tables_column" = some _ := rfl
+  rw [e] at hmc
+  cases hmc
+  intro x _
+  exact fun h => hr h.symm
+
+/-- the RenameColumn pair on the example (via the `Normal`-free core lemma: `Normal exMetaDoc`
+    would need `pureType "Ref:_grist_Tables"` to evaluate) -/
+example : ∃ d' u, runActs exMetaDoc [.renameColumn "T" "A" "A2",
+      .bulkUpdate "_grist_Tables_column" [1] [("colId", [.str "A2"])]] = .ok (d', u) ∧
+    SchemaConsistent d' ∧ MetaUnique d' ∧ schemaConsistentB d' = true := by
+  have h : runActs exMetaDoc [.renameColumn "T" "A" "A2",
+      .bulkUpdate "_grist_Tables_column" [1] [("colId", [.str "A2"])]] = .ok (_, _) := rfl
+  have h1 := pair_renameColumn_core (tr0 := 1) exMetaDoc_WF exMetaDoc_consistent
+    exMetaDoc_MetaUnique (by decide) ⟨_, rfl, by decide, by decide⟩
+    ⟨_, rfl, by decide, by decide, by decide⟩ (exMetaDoc_noRef 1 (by decide)) h
+  exact ⟨_, _, h, h1.1, h1.2, (schemaConsistentB_correct _).2 h1.1⟩
 
 /-- dropping a column record makes it inconsistent: the check is not vacuous -/
 example : ¬ SchemaConsistent
